@@ -6,6 +6,7 @@ import SV.TxCache.ListProofs
 import SV.TxCache.ListsInvProofs
 import SV.TxCache.EvictPost
 import SV.TxCache.ReachableProofs
+import SV.GenProofs
 namespace SV.Props.C04
 open SV SV.TxCache
 
@@ -74,5 +75,10 @@ theorem hash_index_equals_reference_after_any_history (U : Bytes → Tx) (cfg : 
     (he : cfg.evictionEnabled = false) (hw : ∀ t, Op.add t ∈ ops → WfTx U t) (k : Bytes) :
     alookup k (ops.foldl applyOp (Pool.init cfg)).byHash = (specState cfg ops).find k :=
   reachable_find_eq_spec U cfg ops he hw k
+
+/-! ### tie by translation: the source's own leaf logic (regenerated into SV/Generated/Funcs.lean on every run) IS the model's -/
+theorem source_sender_limit_test_is_the_models (cfg : Config) (l : List Tx) :
+    senderExceeded cfg l = Gen.senderExceeded cfg.numBytesPerSender cfg.countPerSender (listBytes l) l.length :=
+  GenProofs.senderExceeded_eq cfg l
 
 end SV.Props.C04
